@@ -115,7 +115,7 @@ func (e *Env) untypedToFloat(a Val) string {
 		return t
 	}
 	if a.Typ == untypedInt {
-		return "(i2f " + t + ")"
+		return i2fTerm(t)
 	}
 	return litToFloat(t)
 }
@@ -165,7 +165,7 @@ func (e *Env) eval(ex *SExpr) Val {
 			return boolVal(sNot(a.L[0]))
 		case "-":
 			if isFloat(a.Typ) || a.Typ == untypedFloat {
-				return Val{Typ: a.Typ, L: []string{"(fneg " + e.untypedToFloatIf(a) + ")"}}
+				return Val{Typ: a.Typ, L: []string{fctx{e.s}.neg(e.untypedToFloatIf(a))}}
 			}
 			return Val{Typ: a.Typ, L: []string{"(- " + a.L[0] + ")"}}
 		case "*":
@@ -361,6 +361,14 @@ func (e *Env) evalBin(ex *SExpr) Val {
 	}
 	a := e.eval(ex.Args[0])
 	b := e.eval(ex.Args[1])
+	if a.Typ == nil || b.Typ == nil {
+		// a value taken from a call event that did not happen on this path
+		switch op {
+		case "==", "!=", "<", "<=", ">", ">=":
+			return boolVal(e.x.D.fresh("noevent", "Bool"))
+		}
+		return Val{Typ: nil, L: []string{"missing"}}
+	}
 	a, b = e.coerce(a, b)
 	isF := isFloat(a.Typ) || a.Typ == untypedFloat
 	af, bf := "", ""
@@ -381,7 +389,7 @@ func (e *Env) evalBin(ex *SExpr) Val {
 				eq = sEq(other.L[0], "0")
 			}
 		case isF:
-			eq = sEq(af, bf)
+			eq = fctx{e.s}.same(af, bf)
 		default:
 			if len(a.L) != len(b.L) {
 				specFail("comparing values of different shapes in %s", ex)
@@ -398,22 +406,33 @@ func (e *Env) evalBin(ex *SExpr) Val {
 		return boolVal(eq)
 	case "<", "<=", ">", ">=":
 		if isF {
+			fc := fctx{e.s}
 			switch op {
 			case "<":
-				return boolVal("(flt " + af + " " + bf + ")")
+				return boolVal(fc.lt(af, bf))
 			case "<=":
-				return boolVal("(fle " + af + " " + bf + ")")
+				return boolVal(fc.le(af, bf))
 			case ">":
-				return boolVal("(flt " + bf + " " + af + ")")
+				return boolVal(fc.lt(bf, af))
 			default:
-				return boolVal("(fle " + bf + " " + af + ")")
+				return boolVal(fc.le(bf, af))
 			}
 		}
 		return boolVal("(" + op + " " + a.L[0] + " " + b.L[0] + ")")
 	case "+", "-", "*", "/", "%", "<<":
 		if isF {
-			fn := map[string]string{"+": "fadd", "-": "fsub", "*": "fmul", "/": "fdiv"}[op]
-			if fn == "" {
+			fc := fctx{e.s}
+			var term string
+			switch op {
+			case "+":
+				term = fc.add(af, bf)
+			case "-":
+				term = fc.sub(af, bf)
+			case "*":
+				term = fc.mul(af, bf)
+			case "/":
+				term = fc.div(af, bf)
+			default:
 				specFail("operator %s on floats", op)
 			}
 			t := a.Typ
@@ -423,7 +442,7 @@ func (e *Env) evalBin(ex *SExpr) Val {
 			if isUntyped(t) {
 				t = types.Typ[types.Float64]
 			}
-			return Val{Typ: t, L: []string{"(" + fn + " " + af + " " + bf + ")"}}
+			return Val{Typ: t, L: []string{term}}
 		}
 		if isString(a.Typ) && op == "+" {
 			e.x.D.declareFun("str_cat", "(Str Str) Str")
@@ -489,18 +508,19 @@ func (e *Env) evalCall(ex *SExpr) Val {
 		case "max", "min":
 			a, b := e.coerce(e.eval(args[0]), e.eval(args[1]))
 			if isFloat(a.Typ) || a.Typ == untypedFloat {
-				f := "fmax"
+				fc := fctx{e.s}
+				f := fc.max
 				if fn.Tok == "min" {
-					f = "fmin"
+					f = fc.min
 				}
 				t := a.Typ
 				if isUntyped(t) {
 					t = types.Typ[types.Float64]
 				}
-				r := Val{Typ: t, L: []string{"(" + f + " " + e.untypedToFloatIf(a) + " " + e.untypedToFloatIf(b) + ")"}}
+				r := Val{Typ: t, L: []string{f(e.untypedToFloatIf(a), e.untypedToFloatIf(b))}}
 				for _, more := range args[2:] {
 					m := e.eval(more)
-					r = Val{Typ: t, L: []string{"(" + f + " " + r.L[0] + " " + e.untypedToFloatIf(m) + ")"}}
+					r = Val{Typ: t, L: []string{f(r.L[0], e.untypedToFloatIf(m))}}
 				}
 				return r
 			}
@@ -520,7 +540,14 @@ func (e *Env) evalCall(ex *SExpr) Val {
 			return r
 		case "ceil", "floor", "trunc":
 			a := e.eval(args[0])
-			return fltVal("(f" + fn.Tok + " " + e.untypedToFloatIf(a) + ")")
+			fc := fctx{e.s}
+			switch fn.Tok {
+			case "ceil":
+				return fltVal(fc.ceil(e.untypedToFloatIf(a)))
+			case "floor":
+				return fltVal(fc.floor(e.untypedToFloatIf(a)))
+			}
+			return fltVal(fc.trunc(e.untypedToFloatIf(a)))
 		case "sqrt":
 			a := e.eval(args[0])
 			e.x.usedSqrt = true
@@ -530,17 +557,21 @@ func (e *Env) evalCall(ex *SExpr) Val {
 			if isFloat(a.Typ) || a.Typ == untypedFloat {
 				return fltVal(e.untypedToFloatIf(a))
 			}
-			return fltVal("(i2f " + a.L[0] + ")")
+			return fltVal(i2fTerm(a.L[0]))
 		case "int", "int64":
 			a := e.eval(args[0])
 			if isFloat(a.Typ) {
-				return Val{Typ: types.Typ[types.Int], L: []string{"(f2i " + a.L[0] + ")"}}
+				t := fctx{e.s}.f2i(a.L[0])
+				if !e.inQuant && e.s != nil {
+					t = e.x.nameTerm(e.s, t, "Int", "f2i")
+				}
+				return Val{Typ: types.Typ[types.Int], L: []string{t}}
 			}
 			return Val{Typ: types.Typ[types.Int], L: a.L}
 		case "int32":
 			a := e.eval(args[0])
 			if isFloat(a.Typ) {
-				return Val{Typ: types.Typ[types.Int32], L: []string{"(f2i " + a.L[0] + ")"}}
+				return Val{Typ: types.Typ[types.Int32], L: []string{fctx{e.s}.f2i(a.L[0])}}
 			}
 			return Val{Typ: types.Typ[types.Int32], L: []string{"(wrap32 " + a.L[0] + ")"}}
 		case "uint64":
@@ -552,10 +583,10 @@ func (e *Env) evalCall(ex *SExpr) Val {
 			return Val{Typ: types.Typ[types.Float64], L: []string{"(fin (fv " + e.untypedToFloatIf(a) + "))"}}
 		case "isFinite":
 			a := e.eval(args[0])
-			return boolVal("(isfin " + e.untypedToFloatIf(a) + ")")
+			return boolVal(fctx{e.s}.isfin(e.untypedToFloatIf(a)))
 		case "isNaN":
 			a := e.eval(args[0])
-			return boolVal("(= " + e.untypedToFloatIf(a) + " nan)")
+			return boolVal(fctx{e.s}.isnan(e.untypedToFloatIf(a)))
 		case "len":
 			a := e.eval(args[0])
 			switch u := a.Typ.Underlying().(type) {
@@ -696,16 +727,25 @@ func (e *Env) evalCall(ex *SExpr) Val {
 			k := e.intArg(args[1])
 			idx := e.matchEvents(name)
 			if k >= len(idx) || e.s.opaqueEvents[name] {
-				// no such event on this path: an unconstrained value makes equalities unprovable
-				return Val{Typ: types.Typ[types.Int], L: []string{e.x.D.fresh("noevent", "Int")}, Loc: nil}
+				// no such event on this path: comparisons with this value are unprovable
+				return Val{Typ: nil, L: []string{"missing"}}
 			}
 			ev := e.events[idx[k]]
 			switch fn.Tok {
 			case "callarg":
-				return ev.Args[e.intArg(args[2])]
+				if i := e.intArg(args[2]); i < len(ev.Args) {
+					return ev.Args[i]
+				}
+				return Val{Typ: nil, L: []string{"missing"}}
 			case "callres":
-				return ev.Res[e.intArg(args[2])]
+				if i := e.intArg(args[2]); i < len(ev.Res) {
+					return ev.Res[i]
+				}
+				return Val{Typ: nil, L: []string{"missing"}}
 			case "callrecv":
+				if ev.Recv == nil {
+					return Val{Typ: nil, L: []string{"missing"}}
+				}
 				return *ev.Recv
 			default:
 				return Val{Typ: types.Typ[types.Int], L: []string{fmt.Sprint(idx[k])}}
@@ -714,9 +754,12 @@ func (e *Env) evalCall(ex *SExpr) Val {
 			name := e.strArg(args[0])
 			idx := e.matchEvents(name)
 			if len(idx) == 0 || e.s.opaqueEvents[name] {
-				return Val{Typ: types.Typ[types.Int], L: []string{e.x.D.fresh("noevent", "Int")}}
+				return Val{Typ: nil, L: []string{"missing"}}
 			}
-			return e.events[idx[len(idx)-1]].Args[e.intArg(args[1])]
+			if i := e.intArg(args[1]); i < len(e.events[idx[len(idx)-1]].Args) {
+				return e.events[idx[len(idx)-1]].Args[i]
+			}
+			return Val{Typ: nil, L: []string{"missing"}}
 		case "nevents":
 			return Val{Typ: types.Typ[types.Int], L: []string{fmt.Sprint(len(e.events))}}
 		}
@@ -733,6 +776,21 @@ func (e *Env) evalCall(ex *SExpr) Val {
 						a = Val{Typ: pt, L: []string{e.untypedToFloat(a)}}
 					} else {
 						a = Val{Typ: pt, L: a.L}
+					}
+				}
+				// name large ground arguments so they are not copied into quantifier bodies
+				if !e.inQuant && e.s != nil && pt != nil {
+					ls := leavesOf(pt)
+					if len(ls) == len(a.L) && a.Loc == nil && a.Iter == nil {
+						na := Val{Typ: a.Typ, L: make([]string, len(a.L))}
+						for j, t := range a.L {
+							if strings.HasPrefix(ls[j].Sort, "(Array") {
+								na.L[j] = t
+							} else {
+								na.L[j] = e.x.nameTerm(e.s, t, ls[j].Sort, "arg")
+							}
+						}
+						a = na
 					}
 				}
 				vars[p] = a
